@@ -19,7 +19,7 @@ RULE = ("one evaluation = one seeded history (<= 60 operations on a dataset of <
         "even-odd polygon test), and at the end with a freshly built dataset given the same final settings. "
         "non-trivial = >=1 setting change and >=1 comparison; distinct = distinct event-log digests")
 STATE_MEASURE = "distinct (active ranges, #polygons, invalid flag, enabled flag, limit>0, manual-any, previous operation kind) tuples"
-PROBES = ["half_specified_range", "apply_failed_on_half_range", "range_removed_after_apply", "range_reversed", "range_min_eq_max", "bound_tied_with_data", "nan_in_range_feature",
+PROBES = ["polygon_removed_via_config", "half_specified_range", "apply_failed_on_half_range", "range_removed_after_apply", "range_reversed", "range_min_eq_max", "bound_tied_with_data", "nan_in_range_feature",
           "polygon_modified_in_place", "polygon_inverted", "polygon_removed", "limit_binding", "limit_not_binding",
           "disabled", "reset_with_state", "manual_edit", "force_apply", "file_backed", "apply_twice_same"]
 COMPONENTS = {"real": ["dclab Filter.update / RTDCBase.apply_filter / Configuration", "dclab PolygonFilter + compiled points_in_poly",
@@ -166,7 +166,7 @@ class World:
         if x < 0.50:
             return {"k": "inv_poly", "which": r.randrange(8)}
         if x < 0.55:
-            return {"k": "rm_poly", "which": r.randrange(8)}
+            return {"k": "rm_poly", "which": r.randrange(8), "via": r.choice(["api", "api", "config", "config_inplace"])}
         if x < 0.60:
             return {"k": "toggle_invalid"}
         if x < 0.65:
@@ -260,7 +260,19 @@ class World:
             if not self.polys:
                 return
             pf = self.polys.pop(op["which"] % len(self.polys))
-            ds.polygon_filter_rm(pf)
+            left = [int(i) for i in cfg["polygon filters"] if i != pf.unique_id]
+            via = op.get("via", "api")
+            if via != "api" and 0 in left:
+                via = "api"     # (a list containing the identifier 0 cannot be assigned: fintlist([0]) == [], C11)
+            if via == "config":
+                # the user edits the list of the configuration instead of calling polygon_filter_rm
+                cfg["polygon filters"] = left
+                ctx.probe("polygon_removed_via_config")
+            elif via == "config_inplace":
+                cfg["polygon filters"].remove(pf.unique_id)
+                ctx.probe("polygon_removed_via_config")
+            else:
+                ds.polygon_filter_rm(pf)
             ctx.probe("polygon_removed")
             ctx.log("a", "rm_poly")
         elif k == "toggle_invalid":
